@@ -64,7 +64,12 @@ func wrap(f *orig.File, err error, op, name string, flag int) (*File, error) {
 		return nil, err
 	}
 	vf := &File{File: f, path: name, flag: flag}
-	openFiles[vf] = true
+	// (read-only opens - e.g. the directory the data-path lock is taken on - are not
+	// tracked: holding a reference here would keep alive a file the code under test has
+	// dropped, and hide what the garbage collector's finalizer then does to it)
+	if flag&(orig.O_WRONLY|orig.O_RDWR|orig.O_CREATE|orig.O_APPEND|orig.O_TRUNC) != 0 {
+		openFiles[vf] = true
+	}
 	return vf, nil
 }
 
